@@ -92,6 +92,16 @@ func VerifyUnit(prog *Program, cs *ContractSet, uc *UnitContract) *UnitResult {
 	res.Exec = x
 	st := newState()
 	x.bindEntryParams(st)
+	// ghost variables with an initial value
+	for _, gv := range uc.Ghosts {
+		if gv.Init != nil {
+			sp0 := &SpecCtx{bound: map[string]Value{}, macros: []map[string]*Macro{uc.Macros, cs.Global}, pkg: fu.Pkg.Types, scope: fu.Pkg.Types.Scope()}
+			x.specDepth++
+			v := x.eval(gv.Init, st, sp0)
+			x.specDepth--
+			x.writeLoc(st, x.ghostLoc(gv.Name), x.convertTo(v, ghostType(gv.Sort)))
+		}
+	}
 	x.entry = st.clone()
 	res.Entry = x.entry
 
@@ -128,7 +138,16 @@ func VerifyUnit(prog *Program, cs *ContractSet, uc *UnitContract) *UnitResult {
 		if !on(r.Tags) {
 			continue
 		}
-		x.assume(st, x.specBool(r, st, spIn), "requires:"+r.Name)
+		rt := x.specBool(r, st, spIn)
+		x.assume(st, rt, "requires:"+r.Name)
+		x.propagateConstants(st, rt)
+	}
+	// the entry snapshot (old(), frame check) sees the propagated constants, too
+	{
+		pcSaved := st.pc
+		x.entry = st.clone()
+		x.entry.pc = pcSaved
+		res.Entry = x.entry
 	}
 	// vacuity cover: the preconditions must be satisfiable
 	if x.dry == 0 {
@@ -262,6 +281,36 @@ func VerifyUnit(prog *Program, cs *ContractSet, uc *UnitContract) *UnitResult {
 	res.Obligations = x.obligations
 	res.Errors = append(res.Errors, x.errs...)
 	return res
+}
+
+// propagateConstants: a precondition conjunct "entry-symbol == numeric literal" (g.DZ.Num == 10) is
+// substituted into the entry state so that the arithmetic depending on it folds to constants.
+func (x *Exec) propagateConstants(st *State, t *Term) {
+	if t.Op == "and" {
+		for _, a := range t.Args {
+			x.propagateConstants(st, a)
+		}
+		return
+	}
+	if t.Op != "=" || len(t.Args) != 2 {
+		return
+	}
+	a, b := t.Args[0], t.Args[1]
+	if b.Op == "const" && a.IsNum() {
+		a, b = b, a
+	}
+	if a.Op == "const" && strings.HasSuffix(a.Name, "#0") && b.IsNum() {
+		key := strings.TrimSuffix(a.Name, "#0")
+		if cur, ok := st.store[key]; ok && cur == a {
+			lit := b
+			if a.S.K == SReal {
+				lit = ToReal(b)
+			} else if a.S.K != b.S.K {
+				return
+			}
+			st.store[key] = lit
+		}
+	}
 }
 
 func (x *Exec) checkFrame(final *State, sp *SpecCtx, fu *FuncUnit) {
